@@ -153,6 +153,7 @@ class Interp:
         self.loop_limit = 100000
         self.native_only = set()   # function objects never interpreted
         self.trace_lines = None    # optional list collecting (file, line)
+        self.stmt_hook = None      # f(statement node, env) called before every interpreted statement
         # generator functions that may run natively although their arguments hold symbolic leaves: they only
         # pass the values through (wrappers still fork on bool() and refuse any silent concretisation)
         self.native_generators = {"BatchProxy.__resultsgenerator"}
@@ -570,6 +571,8 @@ class Interp:
     def exec_stmt(self, node, env):
         if self.trace_lines is not None:
             self.trace_lines.append(node.lineno)
+        if self.stmt_hook is not None:
+            self.stmt_hook(node, env)
         m = getattr(self, "st_" + type(node).__name__, None)
         if m is None:
             raise Unmodelled("statement %s not supported by the interpreter" % type(node).__name__)
